@@ -276,6 +276,10 @@ def _run_native(
             IOReadOnEOF,
             last_ops_length=last_ops.maxlen if last_ops is not None and last_ops.maxlen else 0,
         )
+    except BaseException:
+        if last_ops is not None:
+            last_ops.extend(core.last_run_last_ops)  # the ops executed before the exception
+        raise
     finally:
         # keep op_counter, the IO-paused time and the storage mode valid on the exception
         # paths too (Ctrl+C, IO-device errors)
